@@ -20,6 +20,71 @@ from __future__ import annotations
 import numpy as np
 
 MODES = ('exponential', 'linear', 'sinh')
+# degenerate control-flow paths of deblend_sources (class 'degenerate'); the area/labels-dependent ones are
+# finished by degenerate_args() once the real label areas are known
+DEGENERATE = ('all_small',          # every source is below 2*npixels: no candidate
+              'huge_npixels',       # npixels far above every area: no candidate
+              'subset_small',       # labels= names only sources below 2*npixels: no candidate
+              'empty_labels',       # labels=[] / () / empty array: no candidate
+              'one_candidate',      # exactly one source passes the area filter (by npixels)
+              'one_candidate_subset',   # exactly one requested label passes the area filter
+              'no_split_contrast',  # candidates exist but contrast ~ 1 prunes every split
+              'no_split_nlevels1',  # nlevels=1 and a high contrast
+              'flat_only',          # only constant-valued candidates (source_min == source_max)
+              'contrast_one',       # the documented early return
+              'empty_image')        # a label array without any label (e.g. after remove_labels of all)
+
+
+def degenerate_args(rng, kind, labs, areas, kw):
+    """npixels / labels= that realise `kind` for the actual label areas. Returns (kw, labels_arg or
+    the string 'keep', requested list or None)."""
+    kw = dict(kw)
+    labs = np.asarray(labs)
+    areas = np.asarray(areas)
+    if labs.size == 0:
+        return kw, 'keep', None
+    order = np.argsort(areas, kind='stable')
+    if kind in ('all_small', 'huge_npixels'):
+        amax = int(areas.max())
+        kw['npixels'] = amax // 2 + 1 if kind == 'all_small' or rng.random() < 0.3 \
+            else amax + int(rng.integers(1, 5000))
+        return kw, 'keep', None
+    if kind == 'subset_small':
+        k = int(rng.integers(0, labs.size))
+        kw['npixels'] = int(areas[order[k]]) // 2 + 1          # labels order[:k+1] are all too small
+        small = labs[order[:k + 1]]
+        sub = rng.permutation(small)[:int(rng.integers(1, small.size + 1))]
+        form = int(rng.integers(0, 4))
+        if form == 0 and sub.size == 1:
+            return kw, int(sub[0]), [int(sub[0])]
+        arg = [[int(v) for v in sub], tuple(int(v) for v in sub), sub.astype(np.int64),
+               np.sort(sub).astype(np.int32)][form]
+        return kw, arg, [int(v) for v in np.asarray(arg).tolist()]
+    if kind == 'empty_labels':
+        arg = [[], (), np.array([], dtype=np.int64), np.array([], dtype=np.int32)][int(rng.integers(0, 4))]
+        return kw, arg, []
+    if kind == 'one_candidate':
+        if labs.size >= 2:
+            second, first = int(areas[order[-2]]), int(areas[order[-1]])
+            npix = second // 2 + 1
+            if first >= 2 * npix:
+                kw['npixels'] = npix
+                return kw, 'keep', None
+        kind = 'one_candidate_subset'
+    if kind == 'one_candidate_subset':
+        ok = labs[areas >= 2 * kw['npixels']]
+        if ok.size == 0:
+            kw['npixels'] = max(1, int(areas.max()) // 2)
+            ok = labs[areas >= 2 * kw['npixels']]
+        big = int(rng.choice(ok))
+        small = labs[areas < 2 * kw['npixels']]
+        extra = rng.permutation(small)[:int(rng.integers(0, small.size + 1))] if small.size else small
+        sub = rng.permutation(np.concatenate([[big], extra]).astype(np.int64))
+        arg = [int(v) for v in sub] if rng.random() < 0.5 else sub
+        if sub.size == 1 and rng.random() < 0.3:
+            arg = big
+        return kw, arg, [int(v) for v in sub]
+    return kw, 'keep', None
 CONTRASTS = (0.0, 1e-3, 0.1, 0.5, 1.0)
 
 
@@ -140,6 +205,19 @@ def make_scene(rng, cls):
     elif cls == 'nmarkers':
         contents = ['blend']
         noise = 0.0
+    elif cls == 'degenerate':
+        # every early-exit / degenerate path of the control flow (see DEGENERATE) ...
+        kind = DEGENERATE[int(rng.integers(0, len(DEGENERATE)))]
+        flags['degenerate'] = kind
+        if kind == 'all_small':
+            contents = ['tiny'] * int(rng.integers(2, 8)) + ['iso'] * int(rng.integers(0, 3))
+        elif kind == 'flat_only':
+            contents = ['plateau'] * int(rng.integers(2, 7))
+            noise = 0.0
+        else:
+            contents = (['blend'] * int(rng.integers(1, 5)) + ['iso'] * int(rng.integers(1, 4))
+                        + ['tiny'] * int(rng.integers(1, 5)))
+        noise = float(rng.choice([0.0, 0.0, 0.02]))
 
     img, ncomp = render(rng, contents, cell=cell, elong=(cls != 'flat' or rng.random() < 0.5))
 
@@ -253,6 +331,33 @@ def make_scene(rng, cls):
         post.append(('dtype', name, near_top))
     elif cls == 'redeblend':
         flags['redeblend'] = True
+    elif cls == 'degenerate':
+        # ... crossed with every output-normalisation situation: input labels consecutive, with holes,
+        # increasing with gaps, permuted (label order != raster order), shifted
+        norm = str(rng.choice(['consecutive', 'holes', 'increasing', 'permuted', 'shift', 'holes+permuted'],
+                              p=[0.1, 0.2, 0.2, 0.2, 0.15, 0.15]))
+        flags['label_norm'] = norm
+        if 'holes' in norm:
+            post.append(('remove', float(rng.uniform(0.1, 0.5))))
+        if norm in ('increasing', 'permuted', 'shift', 'holes+permuted'):
+            post.append(('remap', 'permuted' if 'permuted' in norm else norm,
+                         int(rng.choice([20, 500, 60000]))))
+        kind = flags['degenerate']
+        if kind == 'no_split_contrast':
+            kw['contrast'] = float(rng.choice([0.999999, 1.0 - 1e-12, 0.9]))
+        elif kind == 'no_split_nlevels1':
+            kw['nlevels'] = 1
+            kw['contrast'] = float(rng.choice([0.5, 0.9]))
+        elif kind == 'contrast_one':
+            kw['contrast'] = 1.0
+    # label holes / gaps / permutations also ride along on the other classes
+    if cls not in ('gaps', 'dtype', 'merged', 'degenerate') and not post and rng.random() < 0.2:
+        if rng.random() < 0.5:
+            post.append(('remove', float(rng.uniform(0.1, 0.4))))
+        if rng.random() < 0.7 or not post:
+            post.append(('remap', str(rng.choice(['increasing', 'permuted', 'shift'])),
+                         int(rng.choice([50, 5000]))))
+        flags['label_norm'] = 'ride_along'
     if cls not in ('subset', 'gaps') and rng.random() < 0.12:
         labels = str(rng.choice(['list', 'array', 'unsorted']))
     layout = 'C'
